@@ -163,8 +163,12 @@ def _make_case(tier, seed, index):
         # head is missing
         s = rnd.randint(HDR[fr], max(HDR[fr], L - HDR[fr]))
         lat = DEFAULT_LATENCY
+        # ... or shorter than that (an implementation that collects more than two pieces would append it)
+        s2 = max(HDR[fr], min(L - 1, L - s))
+        if rnd.random() < 0.4 and s2 - HDR[fr] >= 2:
+            s2 = rnd.randint(HDR[fr], s2 - 1)
         faults = [{"k": "lonefrag", "s": s, "d1": tau + 2 * lat},
-                  {"k": "frag", "s": max(HDR[fr], min(L - 1, L - s)), "d1": 4 * lat, "d2": rnd.choice([8 * lat, tau / 2])}]
+                  {"k": "frag", "s": s2, "d1": 4 * lat, "d2": rnd.choice([8 * lat, tau / 2])}]
     elif cls == "late_rem":
         # the remainder arrives after the timeout, i.e. while a retransmission is already waiting for ITS answer,
         # which is lost, prompt or late itself
